@@ -166,10 +166,10 @@ theorem indexSize_eq_padded (n ls : Nat) :
   unfold indexPadding indexSize indexSizeUnpadded vliCeil4; omega
 
 /-- decoding the encoded Index of an acceptable Block list gives the list back and consumes `lzma_index_size` bytes -/
-theorem decode_encode {bs : List Block} (h : BlocksOk bs) :
-    (Spec.decode (U64 - 1) (encodeBlocks bs)).ret = .streamEnd
-    ∧ (Spec.decode (U64 - 1) (encodeBlocks bs)).index = some [⟨none, 0, bs⟩]
-    ∧ (Spec.decode (U64 - 1) (encodeBlocks bs)).used = indexSize bs.length (listSize bs)
+theorem decode_encode_ml {bs : List Block} (h : BlocksOk bs) (ml : Nat) (hml : memusage 1 bs.length ≤ max 1 ml) :
+    (Spec.decode ml (encodeBlocks bs)).ret = .streamEnd
+    ∧ (Spec.decode ml (encodeBlocks bs)).index = some [⟨none, 0, bs⟩]
+    ∧ (Spec.decode ml (encodeBlocks bs)).used = indexSize bs.length (listSize bs)
     ∧ (encodeBlocks bs).length = indexSize bs.length (listSize bs) := by
   have hlen := h.length_le
   have hR : (bs.flatMap recBytes).length = listSize bs :=
@@ -196,7 +196,7 @@ theorem decode_encode {bs : List Block} (h : BlocksOk bs) :
       show _ = ([0] ++ V ++ R ++ P) ++ C
       simp [List.append_assoc]
     rw [this, List.take_left]
-  have hdec : Spec.decode (U64 - 1) (encodeBlocks bs)
+  have hdec : Spec.decode ml (encodeBlocks bs)
       = ⟨.streamEnd, body.length + 4, some [⟨none, 0, bs⟩], 0⟩ := by
     rw [henc]
     unfold Spec.decode decodeG
@@ -204,10 +204,7 @@ theorem decode_encode {bs : List Block} (h : BlocksOk bs) :
     have h0 : ¬ (0 : UInt8).toNat ≠ 0 := by decide
     rw [if_neg h0, vliDecode_encode hlen]
     simp only
-    have hmem : ¬ memusage 1 bs.length > max 1 (U64 - 1) := by
-      have := memusage_le 1 bs.length
-      have : max 1 (U64 - 1) = U64 - 1 := by decide
-      omega
+    have hmem : ¬ memusage 1 bs.length > max 1 ml := by omega
     rw [if_neg hmem]
     have hdrop : (0 :: (V ++ (R ++ (P ++ C)))).drop (1 + (vliEncode bs.length).length) = R ++ (P ++ C) := by
       rw [Nat.add_comm, List.drop_succ_cons, List.drop_left]
@@ -241,6 +238,16 @@ theorem decode_encode {bs : List Block} (h : BlocksOk bs) :
       rw [this, List.length_append]; rfl
     rw [this, hbody]; exact indexSize_eq_padded _ _
 
+
+theorem decode_encode {bs : List Block} (h : BlocksOk bs) :
+    (Spec.decode (U64 - 1) (encodeBlocks bs)).ret = .streamEnd
+    ∧ (Spec.decode (U64 - 1) (encodeBlocks bs)).index = some [⟨none, 0, bs⟩]
+    ∧ (Spec.decode (U64 - 1) (encodeBlocks bs)).used = indexSize bs.length (listSize bs)
+    ∧ (encodeBlocks bs).length = indexSize bs.length (listSize bs) :=
+  decode_encode_ml h (U64 - 1) (by
+    have := memusage_le 1 bs.length
+    have : max 1 (U64 - 1) = U64 - 1 := by decide
+    omega)
 
 /-- a valid single-Stream index whose Index field fits into Backward Size is acceptable to the decoder -/
 theorem blocksOk_of_valid {bs : List Block} (hv : Spec.Valid [⟨none, 0, bs⟩])
